@@ -431,40 +431,40 @@ def check_het(rng):
     except Exception as ex:
         import traceback
         C.push(out, dict(what=f'remapped household raised {type(ex).__name__}: {ex}', input=dict(kind='het', trace=traceback.format_exc()[-400:]), signature=dict(op='het-raise')))
-    # the same interleavings on a STAGE block (hetinputs attached / removed before and after remap, on a shared base whose later derivations must not see earlier ones)
+    # the same interleavings on a STAGE block.  Expected interfaces come from blocks BUILT AFRESH with exactly the wanted heterogeneous inputs (constructor path);
+    # the histories run on shared bases (one built with all hetinputs, one bare), whose later derivations must not see earlier ones
     try:
         from lib import het as H
         sm_ = H.load()
-        sbase = sm_.pair_stage_bare                                   # no hetinputs yet
+        from sequence_jacobian.blocks.stage_block import StageBlock
+        from sequence_jacobian.blocks.support.stages import Continuous1D, ExogenousMaker
+
+        def build(fns_):
+            return StageBlock([ExogenousMaker('Pi', 0, 'stage0'), Continuous1D(backward='Va', policy='a', f=sm_.household_new, name='stage1', hetoutputs=[sm_.marginal_utility])],
+                              name='hh_c12', backward_init=sm_._hh_init, hetinputs=tuple(fns_) if fns_ else None)
         fns = [sm_.pair_grids, sm_.pair_income, sm_.alter_Pi]
-        full_s = sbase.add_hetinputs(fns)
-        mps = {'r': 'r_s', 'shift': 'shift_s', 'A': 'A_s', 'atw': 'atw_s'}
-        want_in, want_out = {mps.get(k, k) for k in full_s.inputs}, {mps.get(k, k) for k in full_s.outputs}
-        less = full_s.remove_hetinputs(['alter_Pi'])
-        want_less = {mps.get(k, k) for k in less.inputs}
-        hist = {'attach-then-remap': lambda: sbase.add_hetinputs(fns).remap(mps),
-                'remap-then-attach': lambda: sbase.remap(mps).add_hetinputs(fns),
-                'remap-attach-remove-reattach': lambda: sbase.remap(mps).add_hetinputs(fns).remove_hetinputs(['alter_Pi']).add_hetinputs([sm_.alter_Pi]),
-                'attach-remap-remove': lambda: full_s.remap(mps).remove_hetinputs(['alter_Pi']),
-                'remap-attach-then-remove': lambda: sbase.remap(mps).add_hetinputs(fns).remove_hetinputs(['alter_Pi'])}
-        for nm_, mk_ in hist.items():
+        mps = {'r': 'r_s', 'shift': 'shift_s', 'A': 'A_s', 'atw': 'atw_s', 'Pi': 'Pi_s'}
+        ren = lambda names: {mps.get(k, k) for k in names}
+        want_full, want_less, want_out = ren(build(fns).inputs), ren(build(fns[:2]).inputs), ren(build(fns).outputs)
+        full_s, sbase = build(fns), build(None)
+        hist = {'built-with-hetinputs, remap, remove': (lambda: full_s.remap(mps).remove_hetinputs(['alter_Pi']), want_less),
+                'built-with-hetinputs, remap, remove, re-add': (lambda: full_s.remap(mps).remove_hetinputs(['alter_Pi']).add_hetinputs([sm_.alter_Pi]), want_full),
+                'bare, add, remap': (lambda: sbase.add_hetinputs(fns).remap(mps), want_full),
+                'bare, remap, add': (lambda: sbase.remap(mps).add_hetinputs(fns), want_full),
+                'bare, remap, add, remove': (lambda: sbase.remap(mps).add_hetinputs(fns).remove_hetinputs(['alter_Pi']), want_less),
+                'built-with-hetinputs, remove (no remap), afterwards': (lambda: full_s.remove_hetinputs(['alter_Pi']), set(build(fns[:2]).inputs)),
+                'bare, add all (no remap), afterwards': (lambda: sbase.add_hetinputs(fns), set(build(fns).inputs))}
+        for nm_, (mk_, wi) in hist.items():
             n += 1
             blk_ = mk_()
-            wi = want_less if nm_.endswith('remove') else want_in
-            if set(blk_.inputs) != wi or set(blk_.outputs) != want_out:
-                C.push(out, dict(what='interface of a stage block after interleaving remap with add/remove of heterogeneous inputs is not the renamed interface', input=dict(kind='stage-het', order=nm_, map=mps),
+            if set(blk_.inputs) != wi or (ren(blk_.outputs) != want_out and set(blk_.outputs) != want_out):
+                C.push(out, dict(what='interface of a stage block after a history of remap / add / remove of heterogeneous inputs differs from a block built afresh with those functions (names substituted)', input=dict(kind='stage-het', order=nm_, map=mps),
                                  observed=dict(inputs=sorted(blk_.inputs)), expected=dict(inputs=sorted(wi)), signature=dict(op='stage-het-interface', order=nm_)))
-        # after all these derivations the shared bases are what they were: the same derivations give the same interfaces again, and the original full block still removes correctly
         n += 1
-        if set(full_s.remove_hetinputs(['alter_Pi']).inputs) != set(less.inputs) or set(sbase.add_hetinputs(fns).inputs) != set(full_s.inputs):
-            C.push(out, dict(what='after deriving renamed stage blocks, the original stage block no longer derives the same interfaces (original changed)', input=dict(kind='stage-het', order='original-afterwards'),
-                             signature=dict(op='stage-het-interface', order='original-afterwards')))
-        n += 1
-        s0_ = full_s.steady_state(sm_.PAIR_CALIB)
-        rb_ = hist['remap-attach-remove-reattach']()
-        s1_ = rb_.steady_state(subst(sm_.PAIR_CALIB, mps))
+        s0_ = build(fns).steady_state(sm_.PAIR_CALIB)
+        s1_ = hist['built-with-hetinputs, remap, remove, re-add'][0]().steady_state(subst(sm_.PAIR_CALIB, mps))
         if abs(s1_['A_s'] - s0_['A']) > 1e-9 or abs(s1_['C'] - s0_['C']) > 1e-9:
-            C.push(out, dict(what='steady state of a stage block remapped and re-equipped with its heterogeneous inputs differs from the original', input=dict(kind='stage-het', order='remap-attach-remove-reattach'),
+            C.push(out, dict(what='steady state of a stage block remapped and re-equipped with its heterogeneous inputs differs from the original', input=dict(kind='stage-het', order='remap-remove-re-add'),
                              signature=dict(op='stage-het-steady-state')))
     except Exception as ex:
         import traceback
